@@ -460,7 +460,8 @@ MkProcess(s, pfx, sc, gn, keep) ==
                ELSE {IF s.sens.names[i].k = "name" /\ s.sens.names[i].n \in sc.signames THEN gn[s.sens.names[i].n] ELSE "?" : i \in 1..Len(s.sens.names)},
       vars |-> [n \in vnames |-> InitOf(dOf(n), sc)],
       shape |-> [n \in vnames |-> DefaultOf(dOf(n).ty, sc)],
-      poison |-> {n \in vnames : IsNone(dOf(n).init) /\ ~(n \in keep)},
+      \* keep = names of user variables (never poisoned); "*" in keep switches the checking view off altogether
+      poison |-> IF "*" \in keep THEN {} ELSE {n \in vnames : IsNone(dOf(n).init) /\ ~(n \in keep)},
       err |-> IF badDecl THEN "unmodelled:process declaration other than variable" ELSE ""]
 
 MkConc(s, pfx, sc, gn) ==
